@@ -67,11 +67,11 @@ parser! {
 
         // expression const
         pub rule e_const() -> Expr
-            = "$" n:$(['0'..='9' | 'A'..='F' | 'a'..='f']+) { Expr::Const(i64::from_str_radix(n, 16).unwrap()) }
-            / "0x" n:$(['0'..='9' | 'A'..='F' | 'a'..='f']+) { Expr::Const(i64::from_str_radix(n, 16).unwrap()) }
-            / "0b" n:$(['0'..='1']+) { Expr::Const(i64::from_str_radix(n, 2).unwrap()) }
-            / "0" n:$(['0'..='7']+) { Expr::Const(i64::from_str_radix(n, 8).unwrap()) }
-            / n:$(['0'..='9']+) { Expr::Const(n.parse().unwrap()) }
+            = "$" n:$(['0'..='9' | 'A'..='F' | 'a'..='f']+) {? i64::from_str_radix(n, 16).map(Expr::Const).or(Err("number which fits in 64 bits")) }
+            / "0x" n:$(['0'..='9' | 'A'..='F' | 'a'..='f']+) {? i64::from_str_radix(n, 16).map(Expr::Const).or(Err("number which fits in 64 bits")) }
+            / "0b" n:$(['0'..='1']+) {? i64::from_str_radix(n, 2).map(Expr::Const).or(Err("number which fits in 64 bits")) }
+            / "0" n:$(['0'..='7']+) {? i64::from_str_radix(n, 8).map(Expr::Const).or(Err("number which fits in 64 bits")) }
+            / n:$(['0'..='9']+) {? n.parse().map(Expr::Const).or(Err("number which fits in 64 bits")) }
 
         // expression
         pub rule expr() -> Expr
@@ -164,7 +164,7 @@ parser! {
             }
 
         pub rule reg8() -> Reg8
-            = r_name:$(['r' | 'R'] ['0'..='9']*<1,2>) { Reg8::from_str(r_name.to_lowercase().as_str()).unwrap() }
+            = r_name:$(['r' | 'R'] ['0'..='9']*<1,2>) {? Reg8::from_str(r_name.to_lowercase().as_str()).or(Err("register r0-r31")) }
 
         pub rule reg16() -> Reg16
             = r_name:$(['x' | 'y' | 'z' | 'X' | 'Y' | 'Z']) { Reg16::from_str(r_name.to_lowercase().as_str()).unwrap() }
